@@ -1044,8 +1044,14 @@ def g_wavelet(draw, s, dt):
 def g_a2b(draw, s, dt):
     D = draw(st.integers(1, min(3, len(s))))
     N = s[len(s) - D:]
-    B = [draw(st.integers(1, n)) for n in N]
-    S = [draw(st.integers(1, b + 1)) for b in B]
+    if draw(st.sampled_from([False, False, True])):
+        # exact tiling on every block axis (stride == block size dividing the extent): the regime in which the
+        # normal operator is allowed to be the Identity shortcut
+        B = [draw(st.sampled_from([b for b in range(1, n + 1) if n % b == 0])) for n in N]
+        S = list(B)
+    else:
+        B = [draw(st.integers(1, n)) for n in N]
+        S = [draw(st.integers(1, b + 1)) for b in B]
     return {"op": "ArrayToBlocks", "shape": list(s), "blk_shape": B, "blk_strides": S}
 
 
@@ -1260,7 +1266,7 @@ def tree(draw, s, dt, depth, first=None):
     if depth <= 0:
         return leaf_for(draw, s, dt, only=first)
     kind = draw(st.sampled_from(["leaf", "compose", "compose", "add", "scale", "hstack", "vstack", "diag",
-                                 "conj", "H", "HH", "neg", "sumchain"]))
+                                 "conj", "H", "HH", "neg", "sumchain", "stack1"]))
     if kind == "leaf":
         return leaf_for(draw, s, dt, only=first)
     if kind == "compose":
@@ -1273,6 +1279,20 @@ def tree(draw, s, dt, depth, first=None):
         o, _ = shape_of(a)
         b = fit(draw, tree(draw, s, dt, depth - 1), o)
         return {"op": draw(st.sampled_from(["Add", "Sub"])), "a": a, "b": b}
+    if kind == "stack1":
+        # a stack of exactly ONE operand (what a loop over a list of length 1 builds), every axis form
+        a = tree(draw, s, dt, depth - 1, first)
+        o, i = shape_of(a)
+        which = draw(st.sampled_from(["Hstack", "Vstack", "Diag"]))
+        # axis None flattens that side: allowed for the input side only when the input is 1-D already (the tree must
+        # keep the input shape s it was asked for); the output side is free
+        inone = [None] if len(i) == 1 else []
+        if which == "Hstack":
+            return {"op": "Hstack", "ops": [a], "axis": draw(st.sampled_from(inone + list(range(-len(i), len(i)))))}
+        if which == "Vstack":
+            return {"op": "Vstack", "ops": [a], "axis": draw(st.sampled_from([None] + list(range(-len(o), len(o)))))}
+        return {"op": "Diag", "ops": [a], "oaxis": draw(st.sampled_from([None] + list(range(-len(o), len(o))))),
+                "iaxis": draw(st.sampled_from(inone + list(range(-len(i), len(i)))))}
     if kind == "sumchain":
         # A + B - C (+ D): three or four terms, the first ones often operators that return a VIEW of their input
         # (Reshape, Transpose, Flip, Slice, Identity), so that in-place accumulation into a term's output shows
